@@ -17,6 +17,26 @@ CLAIMED = {
    text="Every boolean produced by the real receive-window and group-sender-table code is compared, step by step, with a reference written from the statement over exhaustively enumerated short histories around a window edge plus millions of biased random histories (duplicates, re-ordering, jumps of any size, values near 0 / 2^31 / 2^32-1, roll-over, evictions). Held = the oracle was silent on all of them.",
    note="Reference model (60 lines) and LRU eviction rule are trusted; runs explore histories up to length 300, not all histories.",
    tech="runtime monitoring: reference-model oracle over enumerated + random counter histories", ref="DESIGN.md §3 C04"),
+ "C02": dict(cat="exploration",
+   text="Real PASE handshakes between a commissioner, a device and a second concurrent initiator over the simulated network, with per-run ground truth: passcode equal/different, crafted Pake1 points (identity, off-curve, wrong length), on-path mutation/replay/reorder of every handshake datagram, window events (close, virtual-time expiry, re-open) placed between every pair of handshake messages, 25 consecutive wrong-passcode attempts. Oracle: a PASE session at the device implies window open at the final proof, equal passcodes and intact transcript, mirrored keys; lock-out after 20 failed proofs; commissionable mDNS service listed iff window open; no reserved session / in-progress marker left at quiescence.",
+   note="Trusted: simulated network/clock, read-only PASE-state and session snapshot hooks. Over-counting failures / closing early are not judged. Enhanced (verifier) windows and RevokeCommissioning-over-IM are not exercised here (C07/C08 drive RevokeCommissioning).",
+   tech="runtime monitoring: ground-truth oracle over session tables, window state and mDNS service list under a network adversary", ref="DESIGN.md §3 C02"),
+ "C12": dict(cat="fault_enumeration",
+   text="Histories of {reserve, restart, crash before/after each individual KV store, injected store failure} over the three durable counters, starting from boundaries incl. next to the wrap-around; every crash point of histories <= 12 operations is enumerated. Group counter through the reservation hook and through real Exchange::initiate_group sends read off the wire tap; event numbers through a real InteractionModel; check-in counter through the public Icd API with the harness as a well-behaved application. Oracle: values yielded over all incarnations form a set, and each value is covered by a boundary durable in the KV map at the time of use.",
+   note="KvBlobStore contract assumed: each store atomic and durable on return. Uniqueness asserted for histories shorter than one lap of the counter range. factory_reset and Icd::send_check_in end-to-end not covered.",
+   tech="runtime monitoring: offline checker over yielded-value multiset and KV operation log, crash points enumerated", ref="DESIGN.md §3 C12"),
+ "C16": dict(cat="exploration",
+   text="(A) generated value trees (all tag forms, integer widths at extremes, floats incl. NaN patterns, strings with 1/2/4/8-byte length fields, nesting to 128+) written with the real writer, decoded, compared structurally and re-encoded through to_tlv and tlv_iter; 20 derived types covering every macro attribute plus 29 public wire types round-tripped. (B) > 1e6 byte strings (random, exhaustive control bytes, every truncation, length fields replaced by boundary values up to 2^64-1, nested, mutated) fed to all 43 public accessors and 47 FromTLV decoders under catch_unwind with pointer-range and termination checks. Held = no mismatch, panic, out-of-range slice or unbounded iteration.",
+   note="Checked build (overflow checks, debug assertions) is the detector for arithmetic faults; Miri/ASan layers add UB detection in the thorough tier. A hang inside one call is caught by a wall-clock watchdog and reported as inconclusive.",
+   tech="runtime monitoring: round-trip + robustness oracles over generated trees and hostile byte strings, checked build as sanitizer", ref="DESIGN.md §3 C16"),
+ "C17": dict(cat="exploration",
+   text="For 16 formats (plain/protocol header, whole packet with AEAD, status report, 5 BDX messages, check-in, ParseBuf/WriteBuf, QR payload, manual code, base-38, BLE advertisement, mDNS records, Matter-TLV<->X.509 certificates checked against the independent x509-cert parser, CSR, certification declaration, attestation certs): legal field combinations are encoded, decoded and compared field-wise; every Verhoeff single-digit substitution and adjacent transposition and out-of-range fields must be refused; arbitrary/truncated/mutated inputs must yield a value or an error without panicking.",
+   note="X.509->TLV has no public converter (no fixed point); long manual codes, raw QR bit strings and CD are decoder-only (reference encoders in the harness). PRIVACY/MSG_EXT/SECEX flags have no public setters.",
+   tech="runtime monitoring: per-format round-trip and refusal oracles plus decoder robustness under catch_unwind", ref="DESIGN.md §3 C17"),
+ "C18": dict(cat="exploration",
+   text="The public Btp state machine is driven against an independent harness BTP peer (own codec + window accounting written from the BTP specification) in three topologies, on virtual time: conversations of unique-payload messages over all segment sizes/windows/MTUs with sequence wrap and idle periods (delivery exactly once, in order, unmodified; unacknowledged segments never exceed the announced window; every segment acknowledged before the deadline), and hostile segment sequences before/after the handshake (no panic, refused or session closed, nothing corrupted delivered).",
+   note="Trusted: the harness BTP reference peer. GATT layer itself (bluer/zbus) is not driven. Liveness judged as 100 s of virtual time without progress.",
+   tech="runtime monitoring: reference-peer differential oracle + window/ack accounting from the segment tap, hostile segment injection", ref="DESIGN.md §3 C18"),
  "C19": dict(cat="exploration",
    text="A harness-side Matter-TLV certificate writer (every field a knob) produces valid chains and chains departing from validity in exactly one of 70 classes (signature bit, issuer/subject name, key ids, fabric/node id, validity edges, CA flag, key usages, path length, critical extension, swapped/repeated certificates, leaf as authority, foreign root, CSR key, existing fabric); the real verifier (verify_chain_start..finalise) and the real AddNOC / UpdateNOC paths of the fail-safe are compared with a reference predicate written from the statement. Held = accept/reject agrees on every chain and no panic.",
    note="Trusted: reference predicate, own certificate writer (TBS obtained from rs-matter's as_asn1), rustcrypto ECDSA. CASE's own validate_certs is driven by C01, not here. Not judged (notes): ICAC/RCAC fabric-id mismatch, node id range, RCAC used as ICAC.",
